@@ -607,7 +607,7 @@ HOSTILE_FIXED = [
     '/x[[1]', '/x["]"]', "/x[']']", '/x["]', '/x["a]"', '/x["a\\"]', '/x["a\\"]"]', '/x["a\\"b"]', '/x["a\\\\"]', "/x['a\\']", "/x['a\\'b']",
     '/x["a\'b"]', '/x[\'a"b\']', '/x["a" "b"]', '/x["a"\']\'"]"]', '/x[\'"][@a="]', '/x[@a="\']"][\'"]',
     '/child::x', '/CHILD::X', '/child::node()', '/child::child::node()', '/child::child::node( )', '/child::child::node(\t)',
-    '/child::child::NODE()', '/child::child::node', '/child::child::node(', '/x::node()', '/child::node()[1]', '/Child::node()',
+    '/child::child::NODE()', '/child::CHILD::node()', '/parent::Child::node()[1]', '//CHILD::node()', '/DIV', '//SpAn[1]', '/child::child::node', '/child::child::node(', '/x::node()', '/child::node()[1]', '/Child::node()',
     '/x::y', '/x::y()', '/x::1', '/x::', '/parent::', '/parent::[1]', '/parent::*', '/parent:: x', '/parent ::x', '/parent:x',
     '/self::x', '/self::*[1]', '//self::x/y', '/ancestor::x', '/ancestor-or-self::x', '/ancestor-or-selfx', '/ancestor-or::x',
     '/descendant::x', '/descendant-or-self::*', '/DESCENDANT-OR-SELF::x', '/descendant-or-self::x::node()', '/following::x',
@@ -643,7 +643,7 @@ H_TOKENS = ['@a', '@n', '@*', '@a-b', '1', '2', '10', '0', '.5', '2.5', '-.5', '
 H_STEPS = ['/', '//', '/', '//', ' / ', '/ ', '///', '']
 H_AXES = ['', '', '', '', 'child::', 'parent::', 'ancestor::', 'ancestor-or-self::', 'descendant::', 'descendant-or-self::', 'self::',
           'Parent::', 'CHILD::', 'child ::', 'child:: ', 'following::', 'ancestor-or::']
-H_NAMES = ['div', 'span', '*', 'P', 'child', 'x1', '_y', 'a-b', '1a', '', 'node', 'self']
+H_NAMES = ['div', 'span', '*', 'P', 'child', 'CHILD', 'Child', 'x1', '_y', 'a-b', '1a', '', 'node', 'self']
 H_SUFFIX = ['', '', '', '', '', '::node()', '::node( )', '::Node()', '::node', '::text()', '::x', '::']
 H_MUT = ' \t()[]"\'\\,@=<>!|+-*/:.-09adnortxivm\n'
 
